@@ -393,10 +393,6 @@ MIRGEN, TYPING, BCGEN, RECCHK, VMRS = ("compiler/mirgen.rs", "compiler/typing.rs
 EMIT = ("emit_bytecode", "emit_wasm")
 
 CLASSES = {
-    # F40: typing::infer_root drops the Err returned for the root expression; compile_with_module_info unwraps it again
-    "root-expression-type-error-dropped":
-        lambda e: e["kind"] == "panic" and e["stage"] in EMIT and in_file(e, MIRGEN)
-        and e["msg"].startswith("called `Result::unwrap()` on an `Err` value: ["),
     # F41: Expr::Error produced without a diagnostic (empty program / empty fn body / truncated definition / staged code)
     "error-node-reaches-bytecode-generator":
         lambda e: e["kind"] == "panic" and e["stage"] in EMIT and in_file(e, BCGEN)
@@ -414,20 +410,6 @@ CLASSES = {
     "let-pattern-shape-mismatch":
         lambda e: e["kind"] == "panic" and e["stage"] in EMIT and in_file(e, MIRGEN) and e["msg"].startswith("typing error in the previous stage")
         and "let" in toks_of(e["text"]),
-    # F45: convert_qualified_names skips default parameter values (operators are QualifiedVar intrinsics there)
-    "default-value-not-name-resolved":
-        lambda e: e["kind"] == "panic" and e["stage"] in EMIT and in_file(e, TYPING)
-        and "Qualified Var should be removed in the previous" in e["msg"] and has_default_param(e["text"]),
-    # F46: Expr::ImcompleteRecord is traversed neither by convert_pronoun nor by typing
-    "incomplete-record-literal-not-traversed":
-        lambda e: e["kind"] == "panic" and has_incomplete_record(e["text"]) and (
-            (in_file(e, RECCHK) and "entered unreachable code" in e["msg"])
-            or (in_file(e, TYPING) and re.search(r'"(self|_)" should not be shown at type inference stage', e["msg"]) and e["stage"] in EMIT)
-            or (in_file(e, BCGEN) and re.match(r"value extfun \S+ ! not found", e["msg"])
-                and (e["stage"] == "emit_bytecode" or (e["stage"] == "emit_wasm" and has_staging_token(e["text"]))))),
-    # F47: unimplemented!() arm of typing for Assign(ArrayAccess, _)
-    "assignment-to-index-expression":
-        lambda e: e["kind"] == "panic" and in_file(e, TYPING) and "Assignment to array is not implemented yet" in e["msg"],
     # F48: unit value (Value::None) moved / stored by the bytecode generator
     "unit-value-in-if-arm-or-let":
         lambda e: e["kind"] == "panic" and in_file(e, BCGEN) and e["msg"].startswith("value none not found")
@@ -443,17 +425,6 @@ CLASSES = {
         and (e["msg"].startswith("type inference failed for expr") or e["msg"].startswith("assertion failed: tys.windows(2)")))
         or (e["stage"] == "emit_bytecode" and in_file(e, BCGEN) and has_default_param(e["text"])
             and re.match(r"value extfun \S+ ! not found", e["msg"]) is not None)),
-    # F51: occurs check misses function / code / ref types: cyclic type, infinite recursion (stack overflow whatever the stack size)
-    "cyclic-type-infinite-recursion":
-        lambda e: e["kind"] == "abort" and e["stage"] in ("typecheck",) + EMIT and e.get("still_aborts_with_big_stack", False),
-    # F52: lower_macro_expand takes the first QualifiedPath among ALL children (arguments included) as the callee
-    "macro-callee-taken-from-arguments":
-        lambda e: e["kind"] == "badspan" and re.search(r"Variable ", e["msg"]) is not None
-        and "!" in toks_of(e["text"]) and "::" in toks_of(e["text"]) and span_reversed(e["msg"]),
-    # F53: typing Proj: `vec.len() < idx` instead of `<=`
-    "tuple-projection-index-equals-arity":
-        lambda e: e["kind"] == "panic" and in_file(e, TYPING) and e["msg"].startswith("index out of bounds: the len is")
-        and re.search(r"\.\s*\d", strip_comment_text(e["text"])) is not None,
     # F54: the compiler executes macro-stage (stage-0) code on an internal VM: missing runtime externs, code built from a recovered AST,
     #      a macro stage that does not evaluate to code
     "stage0-vm-execution-panics":
